@@ -530,6 +530,7 @@ type tracer struct {
 	returned      map[int]bool            // waiters whose call has produced its result
 	regKeys       map[int]map[string]bool // waiter -> keys it is registered for
 	notified      map[int]int             // waiter -> wake-ups offered so far
+	pushIds       map[any]int             // wake-up round in progress -> its thread id in the `bpp` lines
 	pushes        map[any]map[int]int     // wake-up round in progress -> waiters registered at its start, with their counters
 	pushViolation string
 	served        map[uint64]bool // goroutines that have been reported as serving a connection
@@ -543,7 +544,7 @@ type miniTx struct {
 }
 
 func newTracer() *tracer {
-	return &tracer{served: map[uint64]bool{}, txIDs: map[any]int{}, recIDs: map[any]int{}, recName: map[int]string{}, mini: map[any]*miniTx{}, miniRec: map[int]any{}, waiters: map[any]int{}, returned: map[int]bool{}, regKeys: map[int]map[string]bool{}, notified: map[int]int{}, pushes: map[any]map[int]int{}}
+	return &tracer{served: map[uint64]bool{}, txIDs: map[any]int{}, recIDs: map[any]int{}, recName: map[int]string{}, mini: map[any]*miniTx{}, miniRec: map[int]any{}, waiters: map[any]int{}, returned: map[int]bool{}, regKeys: map[int]map[string]bool{}, notified: map[int]int{}, pushes: map[any]map[int]int{}, pushIds: map[any]int{}}
 }
 
 func kx(key string) string { return fmt.Sprintf("k%x", key) }
@@ -601,7 +602,13 @@ func (tr *tracer) hook(ev string, who any, key string, m any, flag bool) {
 				}
 			}
 			tr.pushes[who] = snap
+			// the round as a thread of the program model (Model/BlockProg.lean; `bpp` lines)
+			tr.nextTx++
+			tr.pushIds[who] = tr.nextTx
+			tr.lines = append(tr.lines, fmt.Sprintf("bpp b %d %s", tr.nextTx, kx(key)))
 		} else {
+			tr.lines = append(tr.lines, fmt.Sprintf("bpp e %d %s", tr.pushIds[who], kx(key)))
+			delete(tr.pushIds, who)
 			for w, before := range tr.pushes[who] {
 				if tr.regKeys[w][key] && tr.notified[w] == before && tr.pushViolation == "" {
 					tr.pushViolation = fmt.Sprintf("a push to %q ended its wake-up round without offering a wake-up to waiter %d, which is registered for that key", key, w)
